@@ -91,3 +91,32 @@ func VxH02() {
 	vxAssert(vxInvCount() == n1, "C02.rerun-executes-nothing")
 	vxAssert(vxAnd(vxFSIno(outA) == inoA1, vxFSIno("b.txt") == inoB1), "C02.rerun-changes-nothing")
 }
+
+// VxH02go: a Go-function task (CustomExecute, declared output missing, so it executes) runs
+// while tasks of another process whose outputs already exist are created and checked: those
+// are not executed again and their files stay untouched, whatever the Go function does
+// with process-wide state (e.g. the working directory) while it runs.
+func VxH02go() {
+	vxCmdFree(false, false)
+	wf := newWorkflowWithoutLogging("w", 4)
+	g := NewProc(wf, "g", "{o:gout}")
+	g.SetOut("gout", "g.txt")
+	g.CustomExecute = func(t *Task) {
+		vxYield() // other go-routines get their turn while the function is running
+		vxYield()
+		t.OutIP("gout").Write([]byte("g\n"))
+		vxYield()
+	}
+	s := NewProc(wf, "s", "vcmd w:{o:out} n:{p:x}")
+	s.SetOut("out", "sh_{p:x}.txt")
+	s.InParam("x").FromStr("1", "2")
+	vxFSPut("sh_1.txt", vxFile, 1)
+	vxFSPut("sh_2.txt", vxFile, 2)
+	ino1, ino2 := vxFSIno("sh_1.txt"), vxFSIno("sh_2.txt")
+	vxPreemptBudget(vxGet("preempt"))
+	kind := vxRun(func() { wf.Run() })
+	_ = kind // (the Go-function task itself may fail: known finding KF-C01-1)
+	vxReach("ran")
+	vxAssert(vxInvCount() == 0, "C02.existing-output-not-reexecuted")
+	vxAssert(vxFSIno("sh_1.txt") == ino1 && vxFSIno("sh_2.txt") == ino2 && vxFSPreID("sh_1.txt") == 1 && vxFSPreID("sh_2.txt") == 2, "C02.existing-file-untouched")
+}
